@@ -232,6 +232,41 @@ class C19(Check):
                         {'reparsed': list(cssutils.getUrls(s2)), 'expected': after_urls})
         res.append(('replace pfx:%s %d %s' % (enc('X/'), ign, S.wire_sheet(sheet)),
                     'OK ' + S.wire_sheet(after) + ' | ' + ' '.join(enc(u) for u in log)))
+        # the CSSStyleDeclaration variant of replaceUrls, on the first style rule
+        for i, r in enumerate(after):
+            if r[0] == 'S' and r[2]:
+                log2 = []
+
+                def g(u):
+                    log2.append(u)
+                    return 'Y/' + u
+                cssutils.replaceUrls(s.cssRules[i].style, g)
+                got_st = S.p_style(s.cssRules[i].style)
+                want_st = map_style(r[2], lambda u: 'Y/' + u)
+                if got_st != want_st or log2 != style_urls(r[2], False):
+                    ctx.violate('replaceUrls(style, f) replaces exactly the URLs of that declaration block, once each, '
+                                'in order', dict(w, rule=i), {'after': got_st, 'calls': log2})
+                res.append(('replstyle pfx:%s %s' % (enc('Y/'), S.wire_style(r[2])),
+                            'OK ' + S.wire_style(got_st) + ' | ' + ' '.join(enc(u) for u in log2)))
+                break
+        # a replacer that raises: the exception comes out, exactly when that URL is among the visited ones
+        visited = list(cssutils.getUrls(s))
+        if visited:
+            bad = visited[len(visited) // 2]
+
+            def h(u):
+                if u == bad:
+                    raise ValueError(u)
+                return 'X' + u
+            now = S.p_rules(s.cssRules, deep=False)
+            try:
+                cssutils.replaceUrls(s, h)
+                got_h = 'OK'
+            except ValueError:
+                got_h = 'ERR ValueError'
+            if got_h != 'ERR ValueError':
+                ctx.violate('an exception raised by the replacer is not swallowed', w, {'url': bad})
+            res.append(('replace fail:%s 0 %s' % (enc(bad), S.wire_sheet(now)), got_h))
         return res
 
     # -- correspondence + oracle: loading and flattening an import tree -----------------------------
